@@ -3,9 +3,11 @@ package props
 import (
 	"bytes"
 	"image"
+	"image/color"
 	"image/draw"
 	"math"
 
+	"github.com/reactivego/ivg"
 	"github.com/reactivego/ivg/decode"
 	"github.com/reactivego/ivg/encode"
 	"github.com/reactivego/ivg/raster/vec"
@@ -54,7 +56,10 @@ func init() {
 				Min:  map[string]int64{"inputs": 100000, "rejected": 10000, "accepted": 10000, "long_run_inputs": 10000}},
 			{Name: "adversarial-metadata", N: big(60_000, 2_000_000), Run: c02Metadata, CaseCPU: 20,
 				Rule: "chunk counts and lengths up to 2^30-1, lengths past EOF, palettes of every format cut short, unknown identifiers, repeated and out-of-order chunks",
-				Min:  map[string]int64{"inputs": 30000, "rejected": 10000}},
+				Min:  map[string]int64{"inputs": 30000, "rejected": 10000, "lengths_wrong_by_a_power_of_256": 3000}},
+			{Name: "huge-runs", N: big(24, 96), Run: c02Huge, CaseCPU: 60,
+				Rule: "inputs of 5..9 MiB that consist of one short instruction repeated millions of times (selector opcodes, 1-byte register writes, empty paths): decoded into a counting Destination and by DecodeViewBox; depth of recursion, stack and memory must not grow with the input",
+				Min:  map[string]int64{"huge_inputs": 16, "calls_delivered": 50_000_000}},
 			{Name: "race-checkptr", N: big(0, 400_000), Run: c02Generated, Race: true, CaseCPU: 40,
 				Rule: "the generated family again under the -race build (which enables checkptr instrumentation)"},
 		},
@@ -456,6 +461,63 @@ func c02Prefix(c *run.Ctx, st *c02State, b []byte, k int, full []rec.Op, family 
 	}
 }
 
+// countDest counts the calls it receives.
+type countDest struct {
+	rec.Nop
+	n int64
+}
+
+func (d *countDest) SetCSel(uint8)                             { d.n++ }
+func (d *countDest) SetNSel(uint8)                             { d.n++ }
+func (d *countDest) SetCReg(adj uint8, incr bool, c ivg.Color) { d.n++ }
+func (d *countDest) SetNReg(adj uint8, incr bool, f float32)   { d.n++ }
+func (d *countDest) StartPath(adj uint8, x, y float32)         { d.n++ }
+func (d *countDest) ClosePathEndPath()                         { d.n++ }
+func (d *countDest) Reset(vb ivg.ViewBox, pal [64]color.RGBA)  { d.n++ }
+
+// c02Huge decodes one very long, very regular input.
+func c02Huge(c *run.Ctx, idx uint64) {
+	r := c.Rng(idx)
+	n := r.Range(5<<20, 9<<20)
+	b := make([]byte, 0, n+16)
+	b = append(b, "\x89IVG\x00"...)
+	var unit []byte
+	switch idx % 4 {
+	case 0:
+		unit = []byte{byte(r.Intn(0x80))} // one selector opcode, CSEL or NSEL
+	case 1:
+		unit = []byte{byte(r.Intn(0x40)), byte(0x40 + r.Intn(0x40))} // CSEL, NSEL alternating
+	case 2:
+		unit = []byte{0x87, byte(r.Intn(125))} // set CREG, 1-byte colour, incrementing
+	default:
+		unit = []byte{0xc0, 0x80, 0x80, 0xe1} // an empty path
+	}
+	for len(b)+len(unit) <= n {
+		b = append(b, unit...)
+	}
+	perUnit := []int{1, 2, 1, 2}[idx%4] // calls one unit stands for
+	want := int64(1 + perUnit*((len(b)-5)/len(unit)))
+	c.Count("huge_inputs", 1)
+	c.Count("inputs", 1)
+	c.Eval(run.Hash64(idx, uint64(len(b)), uint64(unit[0])), true)
+	d := &countDest{}
+	var err error
+	if !c.Guard("Decode(huge input)", func() interface{} { return map[string]interface{}{"unit": hx(unit), "bytes": len(b)} }, func() { err = decode.Decode(d, b) }) {
+		return
+	}
+	c.Count("calls_delivered", d.n)
+	if err != nil || d.n != want {
+		c.Violate("huge-input-not-decoded-call-by-call", map[string]interface{}{"unit": hx(unit), "bytes": len(b), "error": errStr(err), "calls": d.n, "expected_calls": want})
+		return
+	}
+	if !c.Guard("DecodeViewBox(huge input)", nil, func() { _, err = decode.DecodeViewBox(b) }) {
+		return
+	}
+	if err != nil {
+		c.Violate("huge-input-metadata-rejected", map[string]interface{}{"unit": hx(unit), "bytes": len(b), "error": err.Error()})
+	}
+}
+
 func c02Metadata(c *run.Ctx, idx uint64) {
 	r := c.Rng(idx)
 	st := &c02State{}
@@ -521,7 +583,11 @@ func c02Metadata(c *run.Ctx, idx uint64) {
 			ch.Byte(r.Bytes(r.Intn(6))...)
 		}
 		l := uint32(len(ch.B))
-		switch r.Intn(6) {
+		switch r.Intn(7) {
+		case 6:
+			// wrong by a multiple of 2^8, 2^16 or 2^24: right in its low bits only
+			l += uint32(r.Pick(1, 1, 2, 3)) << uint(r.Pick(8, 16, 16, 24))
+			c.Count("lengths_wrong_by_a_power_of_256", 1)
 		case 0:
 			l = hugeNat()
 		case 1:
